@@ -243,7 +243,7 @@ META.update({
              'do not change a range. Proved on the model of the REPAIRED parser: the check showed on the real code dropped / '
              'mis-ranked ranges, map-order dependent answers, a nil-logger panic and the default type overriding Produces (fixed: '
              'F7a, F7b). Tied to /repo by dispatching generated requests 6 times each and requiring the answer to be among the '
-             'extracted model\'s possible answers.',
+             'extracted model\'s possible answers. Theorem C05_single_answer (after fix F10, which made the reverse lookup of entity accessors deterministic): at most one possible answer for EVERY registry, Produces list, default and Accept header.',
         design_ref='DESIGN.md section 6, C05',
         note='trusted: Coq kernel, extraction+driver, Go harness + verif hook (registry replacement); strconv.ParseFloat oracle; '
              'differential tie (refinement: implementation answer in model set)',
